@@ -2052,6 +2052,75 @@ Proof.
     rewrite (updm_updm mem _ _ st _ _ Hm). reflexivity.
 Qed.
 
+(* the outer loop of a flattened column: the inner loop pushes onto the column itself *)
+Lemma loop_flat (brs : list branch) (ev : event) (idiom : string) (ar1 : bool) (g1 : guard) (c2 : collref) (g2 : guard) (body : bexp)
+      (mem : string) (n : nat) (l : list value) :
+  forall (st : state) (acc : list value),
+  fget mem st = None -> mget mem st = Some (vec_type (btype body), VVec acc) ->
+  String.eqb mem (iv_name n) = false -> String.eqb mem (bo_name n) = false ->
+  String.eqb mem (vcv_name c2 (c2_at n g1)) = false ->
+  String.eqb (vcv_name c2 (c2_at n g1)) (iv_name n) = false ->
+  String.eqb mem (iv_name (c2_at n g1)) = false -> String.eqb mem (bo_name (c2_at n g1)) = false ->
+  (forall j, String.eqb mem (if_name j) = false) ->
+  nstuck (flat_loop ev g1 c2 g2 body l acc) ->
+  for_loop brs ev (iv_name n) (loop_block (iv_name n) ar1 g1 n [{| d_type := c_ctype c2; d_name := vcv_name c2 (c2_at n g1); d_init := None |}]
+                                          (tflat_inner idiom c2 g2 body mem (c2_at n g1))) l st =
+  match flat_loop ev g1 c2 g2 body l acc with
+  | ROk vs => ROk (updm mem (VVec vs) st)
+  | RFault f => RFault f
+  | RStuck k => RStuck k
+  end.
+Proof.
+  set (m := c2_at n g1). set (c2v := vcv_name c2 m). set (ty := btype body).
+  assert (Hib : String.eqb (iv_name n) (bo_name n) = false) by (apply nm_neq; [reflexivity|reflexivity|lia]).
+  assert (Hbi : String.eqb (bo_name n) (iv_name n) = false) by (apply nm_neq; [reflexivity|reflexivity|lia]).
+  assert (Hib2 : String.eqb (iv_name m) (bo_name m) = false) by (apply nm_neq; [reflexivity|reflexivity|lia]).
+  assert (Hbi2 : String.eqb (bo_name m) (iv_name m) = false) by (apply nm_neq; [reflexivity|reflexivity|lia]).
+  assert (Hifiv2 : forall j, String.eqb (if_name j) (iv_name m) = false) by (intro j; apply nm_neq_base; [reflexivity|reflexivity|discriminate]).
+  assert (Hfree : init_free [{| d_type := c_ctype c2; d_name := c2v; d_init := None |}]) by (repeat constructor).
+  induction l as [|v r IH]; intros st acc Hf Hm Hmiv Hmbo Hmc Hciv Hmiv2 Hmbo2 Hmif Hn.
+  - cbn [flat_loop]. rewrite for_loop_nil. rewrite (updm_same mem _ st _ Hm). reflexivity.
+  - cbn [flat_loop] in *. rewrite for_loop_cons.
+    rewrite (loop_block_exec brs ev (iv_name n) ar1 g1 n _ _ v st Hfree Hib Hbi (nstuck_bind_l _ _ Hn)).
+    destruct (gpasses ev v g1) as [b|f|k]; cbn [rbind] in *; [|reflexivity|destruct Hn].
+    destruct b; cbn [rbind]; [|apply (IH st acc Hf Hm Hmiv Hmbo Hmc Hciv Hmiv2 Hmbo2 Hmif Hn)].
+    set (T0 := dframe [{| d_type := c_ctype c2; d_name := c2v; d_init := None |}]).
+    assert (T0c : frame_get c2v T0 = Some (c_ctype c2, default_value (c_ctype c2))).
+    { unfold T0, dframe. cbn [map d_name d_type frame_get]. rewrite String.eqb_refl. reflexivity. }
+    assert (T0m : frame_get mem T0 = None).
+    { unfold T0, dframe. cbn [map d_name d_type frame_get]. fold m in Hmc. fold c2v in Hmc. rewrite Hmc. reflexivity. }
+    unfold tflat_inner. rewrite exec_stmts_cons. cbn [exec_stmt].
+    destruct (assoc_ss (c_ctype c2, c_bank c2) (ev_colls ev)) as [cval|]; [|reflexivity].
+    set (S0 := istate g1 n (iv_name n) v T0 st).
+    assert (Hc0 : fget c2v S0 = Some (c_ctype c2, default_value (c_ctype c2))) by (apply istate_fget_T; [exact Hciv|exact T0c]).
+    destruct (assign_upd c2v cval S0 _ _ Hc0) as (Has & _ & _).
+    fold c2v. rewrite Has. cbn [rbind].
+    unfold S0. rewrite (upd_istate_T g1 n (iv_name n) v T0 st c2v cval _ _ Hciv T0c).
+    destruct (fset_spec c2v cval T0 _ _ T0c) as (_ & T1c & T1o).
+    set (T1 := fset c2v cval T0) in *.
+    set (S1 := istate g1 n (iv_name n) v T1 st).
+    assert (Hc1 : fget c2v S1 = Some (c_ctype c2, cval)) by (apply istate_fget_T; [exact Hciv|exact T1c]).
+    rewrite exec_one. unfold tvec_loop. rewrite exec_for.
+    change (eval ev S1 (CDeref (CVar (vcv_name c2 m))))
+      with (rbind (eval ev S1 (CVar c2v)) (fun x => match x with VNull => RFault FNullDeref | _ => ROk x end)).
+    rewrite eval_var, (lookup_fget _ _ _ Hc1).
+    destruct cval as [z0|q0|b0|o0| |l2|s0|f0 a0| ]; cbn [rbind] in *; try (destruct Hn; fail); try reflexivity.
+    fold ty in Hn |- *.
+    assert (Hf1 : fget mem S1 = None).
+    { unfold S1. rewrite istate_fget_other; [exact Hf|exact Hmiv|exact Hmbo|]. unfold T1. apply fset_none. exact T0m. }
+    assert (Hm1 : mget mem S1 = Some (vec_type ty, VVec acc)) by (unfold S1; rewrite mget_istate; exact Hm).
+    assert (Hn2 : nstuck (vec_loop ev ty body g2 l2 acc)) by (apply (nstuck_bind_l _ _ Hn)).
+    rewrite (loop_push brs ev (iv_name m) (c_arrow c2) mem body g2 m (m + gsize g2) l2 S1 acc Hf1 Hmiv2 Hmbo2 Hmif Hifiv2 Hib2 Hbi2 Hm1 Hn2).
+    fold ty.
+    destruct (vec_loop ev ty body g2 l2 acc) as [vs|f|k]; cbn [rbind] in *; [|reflexivity|destruct Hn].
+    unfold S1. rewrite updm_istate, ipop_istate.
+    destruct (assign_updm mem (VVec vs) st _ _ Hf Hm) as (_ & _ & Hm3 & _).
+    unfold c2v. fold (tvec_loop c2 g2 body mem m). fold (tflat_inner idiom c2 g2 body mem m). fold c2v.
+    rewrite (IH _ _ (eq_trans (fget_updm _ _ _ _) Hf) Hm3 Hmiv Hmbo Hmc Hciv Hmiv2 Hmbo2 Hmif Hn).
+    destruct (flat_loop ev g1 c2 g2 body r vs) as [ws|f|k]; try reflexivity.
+    rewrite (updm_updm mem _ _ st _ _ Hm). reflexivity.
+Qed.
+
 (* ---------- one First column ---------- *)
 (* the state after the loop: untouched unless the capture ran in it *)
 Definition first_state (isf mem : string) (found o : option value) (st : state) : state :=
@@ -2206,8 +2275,11 @@ Definition cds (c : column) (n : nat) : list decl :=
   | ColScalar e => tds e n
   | ColVec cr _ _ => [{| d_type := c_ctype cr; d_name := vcv_name cr n; d_init := None |}]
   | ColFirst cr g _ _ => [{| d_type := c_ctype cr; d_name := vcv_name cr n; d_init := None |}; fi_decl (isf_name (n + gsize g))]
-  | ColVec2 c1 _ _ _ _ => [{| d_type := c_ctype c1; d_name := vcv_name c1 n; d_init := None |}]
+  | ColVec2 c1 _ _ _ _ | ColFlat c1 _ _ _ _ => [{| d_type := c_ctype c1; d_name := vcv_name c1 n; d_init := None |}]
   end.
+Definition cflat_stmts (idiom : string) (c1 : collref) (g1 : guard) (c2 : collref) (g2 : guard) (body : bexp) (mem : string) (n : nat) : stmts :=
+  SCons (SFetch idiom (vcv_name c1 n) (c_ctype c1) (c_bank c1) (fetch_lines idiom (c_ctype c1) (c_bank c1)))
+        (one_stmt (tflat_loop idiom c1 g1 c2 g2 body mem n)).
 Definition vec2_stmts (idiom : string) (c1 : collref) (g1 : guard) (c2 : collref) (g2 : guard) (body : bexp) (mem nt : string) (n : nat) : stmts :=
   SCons (SFetch idiom (vcv_name c1 n) (c_ctype c1) (c_bank c1) (fetch_lines idiom (c_ctype c1) (c_bank c1)))
         (one_stmt (tvec2_loop idiom c1 g1 c2 g2 body mem nt n)).
@@ -2217,11 +2289,12 @@ Definition css (idiom : string) (c : column) (mem : string) (ntk n : nat) : stmt
   | ColVec cr ps body => vec_stmts idiom cr ps body mem n
   | ColFirst cr ps body line => first_stmts idiom cr ps body line mem n
   | ColVec2 c1 g1 c2 g2 body => vec2_stmts idiom c1 g1 c2 g2 body mem (nt_name ntk) n
+  | ColFlat c1 g1 c2 g2 body => cflat_stmts idiom c1 g1 c2 g2 body mem n
   end.
 Lemma tcol_split (idiom : string) (c : column) (mem : string) (ntk n : nat) :
   tcol idiom c mem ntk n = (cds c n, css idiom c mem ntk n, n + col_size c).
 Proof.
-  destruct c as [e|cr ps body|cr ps body line|c1 g1 c2 g2 body]; cbn [tcol cds css col_size]; [| | |reflexivity].
+  destruct c as [e|cr ps body|cr ps body line|c1 g1 c2 g2 body|c1 g1 c2 g2 body]; cbn [tcol cds css col_size]; [| | |reflexivity|reflexivity].
   - rewrite (te_split idiom e n). rewrite (ex_size_size e). reflexivity.
   - unfold vec_stmts. replace (n + (2 + gsize ps + nifs body)) with (S (S n) + gsize ps + nifs body) by lia. reflexivity.
   - unfold first_stmts. replace (n + (3 + gsize ps)) with (S (S (S n)) + gsize ps) by lia. reflexivity.
@@ -2244,23 +2317,24 @@ Fixpoint rsets (r : row) (nf k n : nat) : stmts :=
   | (name, c) :: t =>
       match c with
       | ColScalar e => SCons (SSet (mem_name name (nf + k)) None (tc e n)) (rsets t nf (S k) (n + col_size c))
-      | ColVec _ _ _ | ColFirst _ _ _ _ | ColVec2 _ _ _ _ _ => rsets t nf (S k) (n + col_size c)
+      | ColVec _ _ _ | ColFirst _ _ _ _ | ColVec2 _ _ _ _ _ | ColFlat _ _ _ _ _ => rsets t nf (S k) (n + col_size c)
       end
   end.
 Lemma trow_sets_split (idiom : string) (r : row) : forall nf k n, trow_sets idiom r nf k n = rsets r nf k n.
 Proof.
   induction r as [|[name c] t IH]; intros nf k n; cbn [trow_sets rsets]; [reflexivity|].
-  destruct c as [e|cr ps body|cr ps body line|c1 g1 c2 g2 body]; cbn [col_size].
+  destruct c as [e|cr ps body|cr ps body line|c1 g1 c2 g2 body|c1 g1 c2 g2 body]; cbn [col_size].
   - rewrite (te_split idiom e n), IH. rewrite (ex_size_size e). reflexivity.
   - replace (n + (2 + gsize ps + nifs body)) with (S (S n) + gsize ps + nifs body) by lia. apply IH.
   - replace (n + (3 + gsize ps)) with (S (S (S n)) + gsize ps) by lia. apply IH.
+  - apply IH.
   - apply IH.
 Qed.
 
 Definition cvars (c : column) (n : nat) : list string :=
   match c with
   | ColScalar e => vars e n | ColVec cr _ _ => [vcv_name cr n] | ColFirst cr g _ _ => [vcv_name cr n; isf_name (n + gsize g)]
-  | ColVec2 c1 _ _ _ _ => [vcv_name c1 n]    (* the names of the outer loop's block live and die inside it *)
+  | ColVec2 c1 _ _ _ _ | ColFlat c1 _ _ _ _ => [vcv_name c1 n]    (* the names of the outer loop's block live and die inside it *)
   end.
 Fixpoint rvars (r : row) (n : nat) : list string :=
   match r with [] => [] | (_, c) :: t => cvars c n ++ rvars t (n + col_size c) end.
@@ -2269,7 +2343,7 @@ Fixpoint rmems (r : row) (nf k : nat) : list string :=
 Definition col_bases_ok (c : column) : bool :=
   match c with
   | ColScalar e => bases_ok e | ColVec cr _ _ | ColFirst cr _ _ _ => base_ok (c_base cr)
-  | ColVec2 c1 _ c2 _ _ => base_ok (c_base c1) && base_ok (c_base c2)
+  | ColVec2 c1 _ c2 _ _ | ColFlat c1 _ c2 _ _ => base_ok (c_base c1) && base_ok (c_base c2)
   end.
 Fixpoint row_bases_ok (r : row) : bool :=
   match r with [] => true | (_, c) :: t => col_bases_ok c && row_bases_ok t end.
@@ -2277,7 +2351,7 @@ Fixpoint row_bases_ok (r : row) : bool :=
 Lemma cvars_shape (c : column) (n : nat) (x : string) : col_bases_ok c = true -> In x (cvars c n) ->
   exists b i, x = nm b i /\ last_digit b = false /\ first_not_underscore b = true /\ n <= i < n + col_size c.
 Proof.
-  destruct c as [e|cr ps body|cr ps body line|c1 g1 c2 g2 body]; cbn [col_bases_ok cvars col_size]; intros Hb Hin.
+  destruct c as [e|cr ps body|cr ps body line|c1 g1 c2 g2 body|c1 g1 c2 g2 body]; cbn [col_bases_ok cvars col_size]; intros Hb Hin.
   - rewrite ex_size_size. apply vars_shape; assumption.
   - destruct Hin as [<-|[]]. unfold base_ok in Hb. apply andb_prop in Hb as [H1 H2]. apply negb_true_iff in H1.
     exists (c_base cr), n. repeat split; auto; lia.
@@ -2285,6 +2359,8 @@ Proof.
     destruct Hin as [<-|[<-|[]]].
     + exists (c_base cr), n. repeat split; auto; lia.
     + exists "is_first", (S (S (n + gsize ps))). repeat split; auto; lia.
+  - apply andb_prop in Hb as [Hb _]. destruct Hin as [<-|[]]. unfold base_ok in Hb. apply andb_prop in Hb as [H1 H2]. apply negb_true_iff in H1.
+    exists (c_base c1), n. repeat split; auto; lia.
   - apply andb_prop in Hb as [Hb _]. destruct Hin as [<-|[]]. unfold base_ok in Hb. apply andb_prop in Hb as [H1 H2]. apply negb_true_iff in H1.
     exists (c_base c1), n. repeat split; auto; lia.
 Qed.
@@ -2330,7 +2406,7 @@ Definition col_declared (c : column) (n : nat) (st : state) : Prop :=
   | ColScalar e => declared e n st
   | ColVec cr _ _ => exists t v, fget (vcv_name cr n) st = Some (t, v)
   | ColFirst cr g _ _ => (exists t v, fget (vcv_name cr n) st = Some (t, v)) /\ fget (isf_name (n + gsize g)) st = Some ("bool", VBool true)
-  | ColVec2 c1 _ _ _ _ => exists t v, fget (vcv_name c1 n) st = Some (t, v)
+  | ColVec2 c1 _ _ _ _ | ColFlat c1 _ _ _ _ => exists t v, fget (vcv_name c1 n) st = Some (t, v)
   end.
 Fixpoint row_declared (r : row) (n : nat) (st : state) : Prop :=
   match r with [] => True | (_, c) :: t => col_declared c n st /\ row_declared t (n + col_size c) st end.
@@ -2338,11 +2414,12 @@ Fixpoint row_declared (r : row) (n : nat) (st : state) : Prop :=
 Lemma col_declared_ext (c : column) (n : nat) (st st' : state) :
   (forall x, In x (cvars c n) -> fget x st' = fget x st) -> col_declared c n st -> col_declared c n st'.
 Proof.
-  destruct c as [e|cr ps body|cr ps body line|c1 g1 c2 g2 body]; cbn [col_declared cvars]; intros H D.
+  destruct c as [e|cr ps body|cr ps body line|c1 g1 c2 g2 body|c1 g1 c2 g2 body]; cbn [col_declared cvars]; intros H D.
   - eapply declared_ext; eauto.
   - destruct D as (t & v & D). exists t, v. rewrite H; [exact D|left; reflexivity].
   - destruct D as [(t & v & D) Df]. split; [exists t, v; rewrite H; [exact D|left; reflexivity]|].
     rewrite H; [exact Df|right; left; reflexivity].
+  - destruct D as (t & v & D). exists t, v. rewrite H; [exact D|left; reflexivity].
   - destruct D as (t & v & D). exists t, v. rewrite H; [exact D|left; reflexivity].
 Qed.
 Lemma row_declared_ext (r : row) : forall n st st',
@@ -2363,13 +2440,13 @@ Definition col_done (ev : event) (c : column) (mem : string) (n : nat) (st : sta
                    (exists old, mget mem st = Some (ex_type e, old))
   | ColVec cr ps body => exists v, p = Some v /\ (exists l, v = VVec l) /\ mget mem st = Some (col_type c, v)
   | ColFirst cr ps body _ => exists v, p = Some v /\ mget mem st = Some (col_type c, v)
-  | ColVec2 _ _ _ _ _ => exists v, p = Some v /\ (exists l, v = VVec l) /\ mget mem st = Some (col_type c, v)
+  | ColVec2 _ _ _ _ _ | ColFlat _ _ _ _ _ => exists v, p = Some v /\ (exists l, v = VVec l) /\ mget mem st = Some (col_type c, v)
   end.
 Lemma col_done_ext (ev : event) (c : column) (mem : string) (n : nat) (st st' : state) (p : option value) :
   (forall x, In x (cvars c n) -> fget x st' = fget x st) -> mget mem st' = mget mem st ->
   col_done ev c mem n st p -> col_done ev c mem n st' p.
 Proof.
-  destruct c as [e|cr ps body|cr ps body line|c1 g1 c2 g2 body]; cbn [col_done cvars]; intros Hf Hm D.
+  destruct c as [e|cr ps body|cr ps body line|c1 g1 c2 g2 body|c1 g1 c2 g2 body]; cbn [col_done cvars]; intros Hf Hm D.
   - destruct D as (B & E & (old & M)). split; [|split].
     + intros x Hx. rewrite (Hf x (bvars_incl e n x Hx)). apply B, Hx.
     + intro Hn. rewrite (tc_ext ev e n st st' B Hf). exact (E Hn).
@@ -2377,15 +2454,20 @@ Proof.
   - destruct D as (v & Ep & Sh & D). exists v. split; [exact Ep|]. split; [exact Sh|]. rewrite Hm. exact D.
   - destruct D as (v & Ep & D). exists v. split; [exact Ep|]. rewrite Hm. exact D.
   - destruct D as (v & Ep & Sh & D). exists v. split; [exact Ep|]. split; [exact Sh|]. rewrite Hm. exact D.
+  - destruct D as (v & Ep & Sh & D). exists v. split; [exact Ep|]. split; [exact Sh|]. rewrite Hm. exact D.
 Qed.
 
+Lemma mem_neq_iv_gen (mem : string) (k : nat) : (forall b i, first_not_underscore b = true -> mem <> nm b i) -> String.eqb mem (iv_name k) = false.
+Proof.
+  intro Hshape. destruct (String.eqb mem (iv_name k)) eqn:E; [|reflexivity]. apply String.eqb_eq in E. exfalso. exact (Hshape "i_obj" (S k) eq_refl E).
+Qed.
 (* one column's code *)
 Lemma col_exec (brs : list branch) (ev : event) (idiom : string) (c : column) (mem : string) (ntk n : nat) (st : state) :
   n + col_size c <= ntk ->
   col_bases_ok c = true -> col_declared c n st -> fget mem st = None ->
   (forall b i, first_not_underscore b = true -> mem <> nm b i) ->
   String.eqb mem (iv_name n) = false ->
-  (exists old, mget mem st = Some (col_type c, old) /\ match c with ColVec _ _ _ | ColVec2 _ _ _ _ _ => old = VVec [] | _ => True end) ->
+  (exists old, mget mem st = Some (col_type c, old) /\ match c with ColVec _ _ _ | ColVec2 _ _ _ _ _ | ColFlat _ _ _ _ _ => old = VVec [] | _ => True end) ->
   match dcol1 ev c with
   | ROk p => exists st', exec_stmts brs ev (css idiom c mem ntk n) st = ROk st' /\ rows st' = rows st /\
                          (forall y, ~ In y (cvars c n) -> fget y st' = fget y st) /\
@@ -2403,7 +2485,7 @@ Proof.
   assert (Hmf : forall j, String.eqb mem (if_name j) = false).
   { intro j. destruct (String.eqb mem (if_name j)) eqn:E; [|reflexivity]. apply String.eqb_eq in E. exfalso. exact (Hshape "if_else_result" (S (S j)) eq_refl E). }
   assert (Hifiv : forall j, String.eqb (if_name j) (iv_name n) = false) by (intro j; apply nm_neq_base; [reflexivity|reflexivity|discriminate]).
-  destruct c as [e|cr ps body|cr ps body line|c1 g1 c2 g2 body]; cbn [dcol1 dcol css col_bases_ok col_declared cvars col_done col_type] in *.
+  destruct c as [e|cr ps body|cr ps body line|c1 g1 c2 g2 body|c1 g1 c2 g2 body]; cbn [dcol1 dcol css col_bases_ok col_declared cvars col_done col_type] in *.
   - pose proof (te_exec brs ev idiom e n st Hb D) as T.
     destruct (dstm ev e) as [[]|f|k]; cbn [rbind]; [|exact T|exact I].
     destruct T as (st' & E & M & R & U & B & V).
@@ -2521,6 +2603,42 @@ Proof.
       * intros m Hmne. rewrite (O m Hmne). apply mget_upd.
       * exists (VVec vs). split; [reflexivity|]. split; [eexists; reflexivity|exact G].
     + rewrite (LV I). reflexivity.
+  - destruct D as (tcv & v0 & Dcv). unfold cflat_stmts. rewrite exec_stmts_cons. cbn [exec_stmt].
+    destruct (assoc_ss (c_ctype c1, c_bank c1) (ev_colls ev)) as [cval|]; [|reflexivity].
+    destruct (assign_upd (vcv_name c1 n) cval st tcv v0 Dcv) as (Has & _ & Hcv1 & Hoth & Mem1 & R1).
+    rewrite Has. cbn [rbind]. rewrite exec_one. unfold tflat_loop. rewrite exec_for.
+    change (eval ev (upd (vcv_name c1 n) cval st) (CDeref (CVar (vcv_name c1 n))))
+      with (rbind (eval ev (upd (vcv_name c1 n) cval st) (CVar (vcv_name c1 n)))
+                  (fun x => match x with VNull => RFault FNullDeref | _ => ROk x end)).
+    rewrite eval_var, (lookup_fget _ _ _ Hcv1).
+    set (st1 := upd (vcv_name c1 n) cval st) in *.
+    apply andb_prop in Hb as [Hb1 Hb2].
+    unfold base_ok in Hb1, Hb2. apply andb_prop in Hb1 as [L1 F1]. apply andb_prop in Hb2 as [L2 F2].
+    apply negb_true_iff in L1. apply negb_true_iff in L2.
+    assert (Hf1 : fget mem st1 = None).
+    { rewrite Hoth; [exact Hf|]. destruct (String.eqb mem (vcv_name c1 n)) eqn:E; [|reflexivity].
+      apply String.eqb_eq in E. exfalso. exact (Hshape _ _ F1 E). }
+    assert (Hm1 : mget mem st1 = Some (vec_type (btype body), VVec [])).
+    { unfold st1. rewrite mget_upd. subst old. exact Hm. }
+    assert (Hmc : String.eqb mem (vcv_name c2 (c2_at n g1)) = false).
+    { destruct (String.eqb mem (vcv_name c2 (c2_at n g1))) eqn:E; [|reflexivity]. apply String.eqb_eq in E. exfalso. exact (Hshape _ _ F2 E). }
+    assert (Hmiv2 : String.eqb mem (iv_name (c2_at n g1)) = false) by apply mem_neq_iv_gen, Hshape.
+    assert (Hmbo2 : String.eqb mem (bo_name (c2_at n g1)) = false).
+    { destruct (String.eqb mem (bo_name (c2_at n g1))) eqn:E; [|reflexivity]. apply String.eqb_eq in E. exfalso. exact (Hshape "bool_op" _ eq_refl E). }
+    unfold c2_at in *.
+    assert (Hciv : String.eqb (vcv_name c2 (S (S n) + gsize g1)) (iv_name n) = false) by (apply nm_neq; [exact L2|reflexivity|lia]).
+    destruct cval; cbn [rbind]; try exact I; try reflexivity.
+    pose proof (loop_flat brs ev idiom (c_arrow c1) g1 c2 g2 body mem n l st1 [] Hf1 Hm1 Hiv Hmb Hmc Hciv Hmiv2 Hmbo2 Hmf) as LV.
+    unfold c2_at in LV.
+    destruct (flat_loop ev g1 c2 g2 body l []) as [vs|f|k] eqn:Ev; cbn [rbind]; [| |exact I].
+    + rewrite (LV I).
+      destruct (assign_updm mem (VVec vs) st1 _ _ Hf1 Hm1) as (_ & _ & G & O & Fr & Rw).
+      eexists. split; [reflexivity|]. split; [congruence|]. split; [|split].
+      * intros y Hy. rewrite fget_updm. apply Hoth. destruct (String.eqb y (vcv_name c1 n)) eqn:E; [|reflexivity].
+        apply String.eqb_eq in E. exfalso. apply Hy. left; auto.
+      * intros m Hmne. rewrite (O m Hmne). apply mget_upd.
+      * exists (VVec vs). split; [reflexivity|]. split; [eexists; reflexivity|exact G].
+    + rewrite (LV I). reflexivity.
 Qed.
 
 (* ---------- all columns ---------- *)
@@ -2545,7 +2663,7 @@ Fixpoint mems_init (r : row) (nf k : nat) (st : state) : Prop :=
   | [] => True
   | (name, c) :: t =>
       (exists old, mget (mem_name name (nf + k)) st = Some (col_type c, old) /\
-                   match c with ColVec _ _ _ | ColVec2 _ _ _ _ _ => old = VVec [] | _ => True end) /\ mems_init t nf (S k) st
+                   match c with ColVec _ _ _ | ColVec2 _ _ _ _ _ | ColFlat _ _ _ _ _ => old = VVec [] | _ => True end) /\ mems_init t nf (S k) st
   end.
 Lemma mems_init_ext (r : row) : forall nf k st st',
   (forall m, In m (rmems r nf k) -> mget m st' = mget m st) -> mems_init r nf k st -> mems_init r nf k st'.
@@ -2612,7 +2730,7 @@ Fixpoint row_filled (r : row) (nf k : nat) (st : state) (vs : list value) : Prop
   | [], [] => True
   | (name, c) :: t, v :: vs' =>
       mget (mem_name name (nf + k)) st = Some (col_type c, v) /\
-      match c with ColVec _ _ _ | ColVec2 _ _ _ _ _ => exists l, v = VVec l | _ => True end /\ row_filled t nf (S k) st vs'
+      match c with ColVec _ _ _ | ColVec2 _ _ _ _ _ | ColFlat _ _ _ _ _ => exists l, v = VVec l | _ => True end /\ row_filled t nf (S k) st vs'
   | _, _ => False
   end.
 Lemma row_filled_ext (r : row) : forall nf k st st' vs,
@@ -2642,7 +2760,7 @@ Proof.
   - exists st. repeat split; auto.
   - set (mem := mem_name name (nf + k)) in *. inversion Nd as [|? ? Nin Nd']; subst.
     rename H into Dc. rename H0 into Dt.
-    destruct c as [e|cr gd body|cr gd body line|c1 g1 c2 g2 body]; cbn [col_done col_size dcol2] in *.
+    destruct c as [e|cr gd body|cr gd body line|c1 g1 c2 g2 body|c1 g1 c2 g2 body]; cbn [col_done col_size dcol2] in *.
     + destruct Dc as (B & E & (old & M)).
       rewrite exec_stmts_cons, exec_set.
       destruct (de ev e) as [v0|f|kk] eqn:Ed; cbn [rbind]; [|rewrite (E I); reflexivity|exact I].
@@ -2697,6 +2815,17 @@ Proof.
       * rewrite (Mo2 mem Nin). exact M.
       * exact Sh.
       * exact Fi2.
+    + destruct Dc as (v & Ep & Sh & M). subst p. cbn [rbind].
+      specialize (IH nf (S k) (n + (4 + gsize g1 + gsize g2 + nifs body)) st ps' Dt).
+      assert (Sep1 : forall m, In m (rmems t nf (S k)) -> fget m st = None) by (intros m Hm; apply Sep; right; exact Hm).
+      specialize (IH Sep1 Nd').
+      destruct (drow2 ev t ps') as [vs'|f|kk]; cbn [rbind]; [|exact IH|exact I].
+      destruct IH as (st2 & E2 & F2 & R2 & Mo2 & Fi2).
+      exists st2. split; [exact E2|]. split; [exact F2|]. split; [exact R2|]. split; [|split; [|split]].
+      * intros m Hm. apply Mo2. intro H. apply Hm. right; exact H.
+      * rewrite (Mo2 mem Nin). exact M.
+      * exact Sh.
+      * exact Fi2.
 Qed.
 
 Definition mk_branch (m : (string * column) * member) : branch := {| br_name := fst (fst m); br_var := m_name (snd m) |}.
@@ -2711,7 +2840,7 @@ Fixpoint members_after (r : row) (nf k : nat) (st : state) (vs : list value) : P
   match r, vs with
   | [], [] => True
   | (name, c) :: t, v :: vs' =>
-      mget (mem_name name (nf + k)) st = Some (col_type c, match c with ColVec _ _ _ | ColVec2 _ _ _ _ _ => VVec [] | _ => v end) /\
+      mget (mem_name name (nf + k)) st = Some (col_type c, match c with ColVec _ _ _ | ColVec2 _ _ _ _ _ | ColFlat _ _ _ _ _ => VVec [] | _ => v end) /\
       members_after t nf (S k) st vs'
   | _, _ => False
   end.
@@ -2732,7 +2861,7 @@ Proof.
   - exists st. repeat split; auto.
   - set (mem := mem_name name (nf + k)) in *. inversion Nd as [|? ? Nin Nd']; subst.
     destruct H0 as [Sh Dt]. rename H into M.
-    destruct c as [e|cr ps body|cr ps body line|c1 g1 c2 g2 body].
+    destruct c as [e|cr ps body|cr ps body line|c1 g1 c2 g2 body|c1 g1 c2 g2 body].
     + destruct (IH nf (S k) st vs' Dt) as (st2 & E2 & F2 & R2 & Mo2 & A2); [intros m Hm; apply Sep; right; exact Hm|exact Nd'|].
       exists st2. split; [exact E2|]. split; [exact F2|]. split; [exact R2|]. split; [|split].
       * intros m Hm. apply Mo2. intro H. apply Hm. right; exact H.
@@ -2755,6 +2884,19 @@ Proof.
       exists st2. split; [exact E2|]. split; [exact F2|]. split; [exact R2|]. split; [|split].
       * intros m Hm. apply Mo2. intro H. apply Hm. right; exact H.
       * rewrite (Mo2 mem Nin). exact M.
+      * exact A2.
+    + destruct Sh as [l Sh]. subst v.
+      destruct (assign_updm mem (VVec []) st _ _ (Sep mem (or_introl eq_refl)) M) as (Ha & Hlk & G & O & Fr & Rw).
+      rewrite exec_stmts_cons. cbn [exec_stmt]. rewrite Hlk, Ha. cbn [rbind].
+      set (st1 := updm mem (VVec []) st) in *.
+      destruct (IH nf (S k) st1 vs') as (st2 & E2 & F2 & R2 & Mo2 & A2).
+      { eapply row_filled_ext; [|exact Dt]. intros m Hm. apply O, (mem_in_neq t nf (S k) mem Nin m Hm). }
+      { intros m Hm. unfold st1. rewrite fget_updm. apply Sep. right; exact Hm. }
+      { exact Nd'. }
+      exists st2. split; [exact E2|]. split; [congruence|]. split; [congruence|]. split; [|split].
+      * intros m Hm. rewrite Mo2; [apply O|]; [|intro H; apply Hm; right; exact H].
+        destruct (String.eqb m mem) eqn:Em; [|reflexivity]. apply String.eqb_eq in Em. exfalso. apply Hm. left; auto.
+      * rewrite (Mo2 mem Nin). exact G.
       * exact A2.
     + destruct Sh as [l Sh]. subst v.
       destruct (assign_updm mem (VVec []) st _ _ (Sep mem (or_introl eq_refl)) M) as (Ha & Hlk & G & O & Fr & Rw).
@@ -2784,7 +2926,13 @@ Proof.
   - apply andb_prop in Hb as [Hc Ht]. rewrite run_decls_app.
     assert (C : exists st1, run_decls ev (cds c n) st = ROk st1 /\ col_declared c n st1 /\ members st1 = members st /\
                             rows st1 = rows st /\ (forall y, ~ In y (cvars c n) -> fget y st1 = fget y st)).
-    { destruct c as [e|cr ps body|cr ps body line|cr g1 c2 g2 body]; cbn [cds col_declared cvars col_bases_ok] in *.
+    { destruct c as [e|cr ps body|cr ps body line|cr g1 c2 g2 body|cr g1 c2 g2 body]; cbn [cds col_declared cvars col_bases_ok] in *.
+      5: { cbn [run_decls d_init d_name d_type].
+        destruct (declare_spec (vcv_name cr n) (c_ctype cr) (default_value (c_ctype cr)) st) as (G & O & M & R).
+        { apply Hf. left; reflexivity. }
+        eexists. split; [reflexivity|]. split; [eauto|]. split; [exact M|]. split; [exact R|].
+        intros y Hy. apply O. destruct (String.eqb y (vcv_name cr n)) eqn:E; [|reflexivity].
+        apply String.eqb_eq in E. exfalso. apply Hy. left; auto. }
       4: { cbn [run_decls d_init d_name d_type].
         destruct (declare_spec (vcv_name cr n) (c_ctype cr) (default_value (c_ctype cr)) st) as (G & O & M & R).
         { apply Hf. left; reflexivity. }
@@ -2832,13 +2980,13 @@ Fixpoint members_init (r : row) (nf k : nat) (ms : frame) : Prop :=
   | [] => True
   | (name, c) :: t =>
       (exists old, frame_get (mem_name name (nf + k)) ms = Some (col_type c, old) /\
-                   match c with ColVec _ _ _ | ColVec2 _ _ _ _ _ => old = VVec [] | _ => True end) /\ members_init t nf (S k) ms
+                   match c with ColVec _ _ _ | ColVec2 _ _ _ _ _ | ColFlat _ _ _ _ _ => old = VVec [] | _ => True end) /\ members_init t nf (S k) ms
   end.
 Fixpoint members_final (r : row) (nf k : nat) (ms : frame) (vs : list value) : Prop :=
   match r, vs with
   | [], [] => True
   | (name, c) :: t, v :: vs' =>
-      frame_get (mem_name name (nf + k)) ms = Some (col_type c, match c with ColVec _ _ _ | ColVec2 _ _ _ _ _ => VVec [] | _ => v end) /\
+      frame_get (mem_name name (nf + k)) ms = Some (col_type c, match c with ColVec _ _ _ | ColVec2 _ _ _ _ _ | ColFlat _ _ _ _ _ => VVec [] | _ => v end) /\
       members_final t nf (S k) ms vs'
   | _, _ => False
   end.
@@ -2989,7 +3137,13 @@ Qed.
 Lemma dcol12_natural (ev : event) (c : column) (v : value) :
   (exists p, dcol1 ev c = ROk p /\ dcol2 ev c p = ROk v) <-> dcol ev c = ROk v.
 Proof.
-  destruct c as [e|cr ps body|cr ps body line|c1 g1 c2 g2 body]; cbn [dcol1 dcol2 dcol].
+  destruct c as [e|cr ps body|cr ps body line|c1 g1 c2 g2 body|c1 g1 c2 g2 body]; cbn [dcol1 dcol2 dcol].
+  5: { set (R := match assoc_ss (c_ctype c1, c_bank c1) (ev_colls ev) with
+              | Some (VVec l) => rdo vs <- flat_loop ev g1 c2 g2 body l []; ROk (VVec vs)
+              | Some VNull => RFault FNullDeref | Some _ => RStuck (KType "the bank does not hold a collection") | None => RFault FRetrieve end).
+    split.
+    + intros (p & H1 & H2). destruct R as [x|f|k]; cbn [rbind] in H1; try discriminate. inversion H1; subst. cbn in H2. exact H2.
+    + intro H. rewrite H. exists (Some v). split; reflexivity. }
   4: { set (R := match assoc_ss (c_ctype c1, c_bank c1) (ev_colls ev) with
               | Some (VVec l) => rdo vs <- vec2_loop ev g1 c2 g2 body l []; ROk (VVec vs)
               | Some VNull => RFault FNullDeref | Some _ => RStuck (KType "the bank does not hold a collection") | None => RFault FRetrieve end).
@@ -3159,4 +3313,37 @@ Proof.
   { induction l as [|v r IH]; intros acc Hp; cbn [vec2_loop]; [reflexivity|].
     rewrite (Hp v (or_introl eq_refl)). cbn [rbind]. apply IH. intros w Hw. apply Hp. right; exact Hw. }
   rewrite (E l1 [] P1). reflexivity.
+Qed.
+
+(* ---------- a flattened column is SelectMany ---------- *)
+Lemma flat_loop_linq (ev : event) (g1 : guard) (c2 : collref) (g2 : guard) (body : bexp) (f1 f2 : value -> bool) (g : value -> value)
+      (l2 : list value) (l : list value) : forall acc,
+  assoc_ss (c_ctype c2, c_bank c2) (ev_colls ev) = Some (VVec l2) ->
+  passes_total ev g1 l f1 -> passes_total ev g2 l2 f2 ->
+  (forall v, In v l2 -> f2 v = true -> db ev v body = ROk (g v)) ->
+  flat_loop ev g1 c2 g2 body l acc =
+  ROk (acc ++ flat_map (fun _ => map (fun v => conv (btype body) (g v)) (filter f2 l2)) (filter f1 l)).
+Proof.
+  intros acc H2 P1 P2 Hb. revert acc P1.
+  induction l as [|v r IH]; intros acc P1; cbn [flat_loop filter flat_map].
+  - rewrite app_nil_r. reflexivity.
+  - assert (Hr : passes_total ev g1 r f1) by (intros w Hw; apply P1; right; exact Hw).
+    rewrite (P1 v (or_introl eq_refl)). cbn [rbind].
+    destruct (f1 v) eqn:Ef.
+    + rewrite H2. rewrite (vec_loop_linq ev (btype body) body g2 f2 g l2 acc P2 Hb). cbn [rbind flat_map].
+      rewrite (IH _ Hr). rewrite <- app_assoc. reflexivity.
+    + apply (IH _ Hr).
+Qed.
+(* e.C1(b1).Where(f1).SelectMany(lambda o: e.C2(b2).Where(f2)).Select(lambda x: g x) = [ g x | o <- l1, f1 o, x <- l2, f2 x ] *)
+Theorem flat_col_linq (ev : event) (c1 : collref) (g1 : guard) (c2 : collref) (g2 : guard) (body : bexp)
+        (f1 f2 : value -> bool) (g : value -> value) (l1 l2 : list value) :
+  assoc_ss (c_ctype c1, c_bank c1) (ev_colls ev) = Some (VVec l1) ->
+  assoc_ss (c_ctype c2, c_bank c2) (ev_colls ev) = Some (VVec l2) ->
+  passes_total ev g1 l1 f1 -> passes_total ev g2 l2 f2 ->
+  (forall v, In v l2 -> f2 v = true -> db ev v body = ROk (g v)) ->
+  dcol ev (ColFlat c1 g1 c2 g2 body) =
+  ROk (VVec (flat_map (fun _ => map (fun v => conv (btype body) (g v)) (filter f2 l2)) (filter f1 l1))).
+Proof.
+  intros H1 H2 P1 P2 Hb. cbn [dcol]. rewrite H1.
+  rewrite (flat_loop_linq ev g1 c2 g2 body f1 f2 g l2 l1 [] H2 P1 P2 Hb). reflexivity.
 Qed.
